@@ -41,7 +41,7 @@ var apiPaths = []string{"/healthcheck", "/events", "/events/bulk", "/proofs/memb
 var mgmtPaths = []string{"/backup", "/backups", "/nope"}
 var methods = []string{"GET", "POST", "POST", "POST", "PUT", "DELETE", "HEAD", "PATCH", "OPTIONS"}
 
-const rule = "a complete server.Server (API, management, metrics, gossip agent, sender, Raft over RocksDB) runs in an executor child; rapid draws request sequences over real TCP: method x path (all API and management routes + unknown) x body grammar {well-formed bodies of every request type with boundary numerics (0, current, current+1, 2^63-1, 2^64-1) and degenerate collections ([], [\"\"], null, 2000 events), digests of length 0,1,31,32,33,64, wrong JSON types, truncated / garbled JSON, empty body, null} x query parameters {missing, empty, non-numeric, 0, existing, huge, negative}; valid insertions are interleaved. Oracle: every request gets a well-formed HTTP response (a transport error / EOF is a dropped connection); the child is alive after each request and 300 ms later (FSM panics are asynchronous); the next valid insertion gets the next dense version and its membership proof verifies; at the end the server is stopped, restarted on the same directories (log replay) and again accepts an insertion with the next version. evaluations = requests. Non-trivial: the request reached the API behind the JSON decoder (2xx/412/5xx or a management route); distinct = FNV-64 of (method, path, query, body)."
+const rule = "a complete server.Server (API, management, metrics, gossip agent, sender, Raft over RocksDB) runs in an executor child; rapid draws request sequences over real TCP: method x path (all API and management routes + unknown) x body grammar {well-formed bodies of every request type with boundary numerics (0, current, current+1, 2^63-1, 2^64-1) and degenerate collections ([], [\"\"], null, 2000 events), digests of length 0,1,31,32,33,64 and the key / digest of an event that is in the log, wrong JSON types, truncated / garbled JSON, empty body, null} x query parameters {missing, empty, non-numeric, 0, existing, huge, negative}; valid insertions are interleaved. Oracle: every request gets a well-formed HTTP response (a transport error / EOF is a dropped connection); the child is alive after each request and 300 ms later (FSM panics are asynchronous); the next valid insertion gets the next dense version and its membership proof verifies; at the end the server is stopped, restarted on the same directories (log replay) and again accepts an insertion with the next version. evaluations = requests. Non-trivial: the request reached the API behind the JSON decoder (2xx/412/5xx or a management route); distinct = FNV-64 of (method, path, query, body)."
 
 func u64s(cur uint64) []string {
 	return []string{"0", "1", fmt.Sprint(cur), fmt.Sprint(cur + 1), "9223372036854775807", "18446744073709551615", "18446744073709551616", "-1", "1.5", "\"7\"", "null"}
@@ -58,7 +58,9 @@ func b64(n int, seed byte) string {
 
 func drawBody(rt *rapid.T, path string) (string, string) {
 	shape := rapid.SampledFrom([]string{"typed", "typed", "typed", "typed", "wrongtype", "truncated", "garbled", "empty", "null", "other-type"}).Draw(rt, "shape")
-	ver := func() string { return rapid.SampledFrom(u64s(uint64(rapid.IntRange(0, 30).Draw(rt, "cur")))).Draw(rt, "ver") }
+	ver := func() string {
+		return rapid.SampledFrom(u64s(uint64(rapid.IntRange(0, 30).Draw(rt, "cur")))).Draw(rt, "ver")
+	}
 	dlen := func() int { return rapid.SampledFrom([]int{0, 1, 31, 32, 32, 32, 33, 64, 300}).Draw(rt, "dlen") }
 	typed := func(p string) string {
 		switch p {
@@ -89,9 +91,13 @@ func drawBody(rt *rapid.T, path string) (string, string) {
 			if rapid.Bool().Draw(rt, "nover") {
 				return `{"Key":"ZXZlbnQ="}`
 			}
-			return `{"Key":` + rapid.SampledFrom([]string{`"ZXZlbnQ="`, `""`, `null`}).Draw(rt, "key") + `,"Version":` + ver() + `}`
+			// "valid-1" is always in the log (inserted before the first generated request)
+			return `{"Key":` + rapid.SampledFrom([]string{`"dmFsaWQtMQ=="`, `"dmFsaWQtMQ=="`, `"ZXZlbnQ="`, `""`, `null`}).Draw(rt, "key") + `,"Version":` + ver() + `}`
 		case "/proofs/digest-membership":
 			d := b64(dlen(), byte(rapid.IntRange(0, 255).Draw(rt, "dseed")))
+			if rapid.IntRange(0, 2).Draw(rt, "existing") == 0 {
+				d = `"fEIsCMy42x8rQFrgg9M7X9F5m4TE85DXmcbR1pymtlw="` // the digest of "valid-1", which is always in the log
+			}
 			if rapid.Bool().Draw(rt, "nover") {
 				return `{"KeyDigest":` + d + `}`
 			}
